@@ -146,17 +146,38 @@ def tree_id(parsed) -> str:
     return hsh.hexdigest()[:16]
 
 
+class _Timeout(Exception):
+    pass
+
+
+def _alarm(signum, frame):
+    raise _Timeout()
+
+
 def file_case(item):
+    import signal
+
     text, dialect, name, tid = item
     lnt = sq.linter(sq.config(dialect, "jinja"))
     events, intern = [], {}
-    for m in MODES + ["repeat"]:
-        with mode(m if m != "repeat" else "default"):
-            try:
-                events.append({"ev": "Parse", "mode": m, "result": intern.setdefault(tree_id(lnt.parse_string(text, fname=name)), len(intern) + 1)})
-            except Exception as e:
-                events.append({"ev": "Parse", "mode": m, "result": intern.setdefault("EXC:" + type(e).__name__, len(intern) + 1)})
-    return {"id": tid, "name": name, "dialect": dialect, "text": text, "events": events}
+    timed_out = False
+    old = signal.signal(signal.SIGALRM, _alarm)
+    try:
+        for m in MODES + ["repeat"]:
+            with mode(m if m != "repeat" else "default"):
+                signal.alarm(15)        # without the cache or the pruning some inputs backtrack for minutes: not judged
+                try:
+                    events.append({"ev": "Parse", "mode": m, "result": intern.setdefault(tree_id(lnt.parse_string(text, fname=name)), len(intern) + 1)})
+                except _Timeout:
+                    timed_out = True
+                    break
+                except Exception as e:
+                    events.append({"ev": "Parse", "mode": m, "result": intern.setdefault("EXC:" + type(e).__name__, len(intern) + 1)})
+                finally:
+                    signal.alarm(0)
+    finally:
+        signal.signal(signal.SIGALRM, old)
+    return {"id": tid, "name": name, "dialect": dialect, "text": text, "events": events, "timed_out": timed_out}
 
 
 def history_ids(files: List[tuple]) -> Dict[str, str]:
@@ -228,10 +249,10 @@ def run(tier: str, seed: int) -> int:
             items.append((mt, d, f"<mutant of {p}>", f"m{i}.{j}"))
     # clause-starting words used as identifiers: the parser backtracks over them and retries the same element at
     # the same position under differently trimmed views
-    for i, (p, d) in enumerate(sq.stratified(corpus, lambda x: x[1], 84 if quick else 900, seed + 6)):
+    for i, (p, d) in enumerate(sq.stratified(corpus, lambda x: x[1], 56 if quick else 900, seed + 6)):
         text = sq.read(p)
-        if len(text) > 3000:
-            text = text[:3000]
+        if len(text) > 1200:
+            text = text[:1200]
         for j in range(2):
             items.append((mutate.keyword_as_identifier(text, rnd), d, f"<keyword-as-identifier in {p}>", f"k{i}.{j}"))
     for i, q in enumerate(["SELECT a FROM t1 JOIN {w} t2 ON t1.a = t2.a\n", "SELECT a FROM {w} WHERE a IN (SELECT b FROM {w})\n",
@@ -242,6 +263,7 @@ def run(tier: str, seed: int) -> int:
                 items.append((q.format(w=w), d, f"<clause word {w}>", f"w{i}.{w}.{d}"))
     ftraces = cache.cached("c06-files", [tier, seed, len(items)], lambda: pmap(file_case, items, chunksize=2))
     rep.evaluated(len(ftraces) * 5)
+    rep.extra["file_level_modes_timed_out"] = sum(1 for t in ftraces if t.get("timed_out"))
     val = validate_traces("ParseDetTrace", [{"id": t["id"], "events": t["events"]} for t in ftraces], timeout=1800)
     rep.validation(val, "ParseDetTrace[files]")
     fby = {t["id"]: t for t in ftraces}
